@@ -7,23 +7,43 @@ D = 'mindsdb'
 TARGETS = ['MindsVerif.Props.C19']
 _P = 'MindsVerif.Props.C19.'
 THEOREMS = [_P + n for n in (
+    # the part of the full statement that is proved
+    'C19_partial', 'C19_partial_mindsdb', 'C19_full_caret_holds', 'C19_parser_bad_token_holds',
+    'C19_parser_suggestion_holds', 'C19_accepted_is_viable',
+    # clause 1 (location), live part-by-part variant
+    'C19_caret_split', 'C19_caret_uniform', 'C19_review_caret_uniform_line', 'C19_review_full_caret_holds',
+    'C19_eof_caret_uniform', 'C19_review_srcChain_example', 'C19_review_srcChain_example2', 'C19_lexer_caret',
+    # clause 2 (which token), parser level
+    'C19_bad_token_prefix', 'C19_bad_token_prefix_mindsdb', 'C19_bad_token_deterministic',
+    'C19_no_accepted_continuation', 'C19_bad_token_deterministic_mindsdb',
+    # clause 3 (suggestions)
+    'C19_suggestions_checked', 'C19_suggestions_sentence_mindsdb', 'C19_suggestion_is_row_key',
+    'C19_key_classification', 'C19_shift_key_extends', 'C19_kept_token_extends', 'C19_review_errStack_errAtSt',
+    'C19_review_kept_expected_extends', 'C19_review_suggestion_extends', 'C19_key_totals_mindsdb',
+    'C19_witness_replace_previous', 'C19_witness_replace_index0',
+    # history: the one-piece variant (reached only through errorLocationV_true_eq) and regression theorems
     'C19_caret_partial', 'C19_caret_source', 'C19_eof_caret', 'C19_variant_agrees', 'C19_caret_partial_v',
-    'C19_eof_caret_v', 'C19_caret_split', 'C19_caret_uniform', 'C19_eof_caret_uniform', 'C19_suggestions_checked',
-    'C19_suggestions_sentence_mindsdb', 'C19_lexer_caret', 'C19_bad_token_prefix',
-    'C19_bad_token_prefix_mindsdb', 'C19_bad_token_deterministic', 'C19_no_accepted_continuation',
-    'C19_bad_token_deterministic_mindsdb', 'C19_suggestion_is_row_key', 'C19_key_classification',
-    'C19_shift_key_extends', 'C19_kept_token_extends', 'C19_key_totals_mindsdb', 'C19_full_false',
-    'C19_witness_short_caret', 'C19_witness_newline_in_token', 'C19_witness_truncation',
-    'C19_witness_replace_previous', 'C19_witness_replace_index0')]
+    'C19_eof_caret_v', 'C19_regress_rewritten_value_short_caret', 'C19_regress_onepiece_newline_in_token',
+    'C19_outside_layout_truncation')]
 ASSUME = [
-    'ErrorHandling.error_location / make_suggestion / process and MindsDBLexer.error are hand-modelled '
-    '(MindsVerif.Err); tie = the message correspondence stream of this run (model message == real message, byte for byte)',
-    'the uniform lexer semantics (value = source slice since 5f4cdd1, lineno = 1 + newlines before index since bd184d7, '
-    'tokens in text order without overlap) is the hypothesis SrcChain of C19_caret_uniform; it is checked on every token list '
-    'of the stream (probes `value-is-source`, `lineno-uniform`, `layout-invariant`) and pinned by the extractor flags, '
-    'not proved about sly/lex.py',
-    'query_is_valid is modelled by acceptance of the LR model; semantic actions of the re-parse are not modelled',
-    'completability half of "first token the grammar cannot accept" is search only (Earley oracle)',
+    'ErrorHandling.error_location (live part-by-part variant) / make_suggestion / process and MindsDBLexer.error are '
+    'hand-modelled (MindsVerif.Err); tie = stream `err-message` of this run (model message == real message, byte for byte)',
+    'the lexer is not modelled: its semantics (value = source slice, lineno = 1 + newlines before index, tokens in text order '
+    'without overlap) is the hypothesis SrcChain of C19_full_caret_holds; it is checked on every token list of the stream '
+    '(obligations `probe:value-is-source`, `probe:lineno-uniform`, `probe:layout-invariant`) and pinned by the extractor flags '
+    'ErrLex.splitValues / ErrLex.uniformLineno, not proved about sly/lex.py',
+    'which token is bad, in which state, with which action-row keys (ErrInfo of LR.parse) is tied on the C19 inputs by the '
+    'stream `lr` of this run (same comparison as C05/C02: outcome, reduction log, bad index, state, expected set)',
+    'MindsDBParser._can_take is hand-modelled (LR.canTake, fuelled); tie = stream `can-take` (kept keys == stored expected_tokens)',
+    'query_is_valid = acceptance by the LR model AND no semantic action raising; the semantic actions of the re-parse are NOT '
+    'modelled: which synthesised lists make an action raise is an INPUT of the driver taken from the real run (`raises`); the '
+    'theorems about the checked branch hold for every `raises`',
+    'grammar-level clauses of C19_full (the bad token is the first the GRAMMAR cannot continue; a suggestion can be completed '
+    'to a sentence) are search only (Earley oracle over the exported productions); the first is false today: KF-C19-3',
+    'probe readings: a sentence rejected by a semantic action, an action of the first parse firing before the bad token, and '
+    'a LexError pre-empting an earlier syntax error are not judged; a token spanning lines is marked on its first line; a chained '
+    '%nonassoc operator (explicit error entry of the action row) is the grammar\'s bad token; shown lines are compared with the '
+    'comment-blanked source up to blanks',
 ]
 
 import collections
@@ -524,6 +544,7 @@ def run(chk):
             k['_reproduced'] = any(kf_match(k, f) for f in fs)
     lines, metas, dist = [], [], {}
     klines, kmetas = [], []
+    lrlines, lrmetas = [], []
     lay_bad = None
     src_bad = None
     lno_bad = None
@@ -556,6 +577,11 @@ def run(chk):
                 lines.append(model_line_syn(R, info))
                 metas.append((case, msg))
                 # Φ19 / _can_take: the expected tokens stored by MindsDBParser.error vs the model's keptExpected
+                # tie of ErrInfo (bad index, state, action-row keys) of LR.parse on this very input
+                py = R.run(info['toks'], False)
+                py.pop('parser', None); py.pop('result', None)
+                lrlines.append(lr.model_line(D, [R.tid[t.type] for t in info['toks']], False))
+                lrmetas.append((case, py))
                 klines.append('K ' + ' '.join(str(R.tid[t.type]) for t in info['toks']))
                 kmetas.append((case, ','.join(str(x) for x in sorted(R.tid[x] for x in info['expected']))))
                 nl = len({t.lineno for t in info['toks']})
@@ -593,6 +619,19 @@ def run(chk):
     except Exception as e:
         chk.oblige('corr:err-message', 'correspondence', False, 'driver failed: %s' % e)
     try:
+        outs = common.lean_run('LR', lrlines)
+        diverged, first = 0, None
+        for (case, py), o in zip(lrmetas, outs):
+            r = lr.compare(D, py, lr.parse_model(o))
+            if r:
+                diverged += 1
+                if first is None:
+                    first = dict(text=case['text'], src=case['src'], why=r, model=o[:300],
+                                 impl=dict(kind=py['kind'], err=py.get('err')))
+        chk.corr_result('lr', len(lrlines), diverged, first, {})
+    except Exception as e:
+        chk.oblige('corr:lr', 'correspondence', False, 'driver failed: %s' % e)
+    try:
         outs = common.lean_run('Err', klines)
         diverged, first = 0, None
         for (case, want), o in zip(kmetas, outs):
@@ -605,9 +644,13 @@ def run(chk):
         chk.oblige('corr:can-take', 'correspondence', False, 'driver failed: %s' % e)
     for (case, want) in metas[:2] + metas[-2:]:
         chk.samples.append(dict(src=case['src'], text=case['text'][:200], message=want[:300]))
-    chk.samples.append(dict(theorem='C19_caret_partial: Layout toks → bad ∈ toks → errorLocation toks (some bad) = hdr :: (ctx ++ '
-                            '[">" ++ shown, "-"*(c+1) ++ "^"*len(bad.value)]) ∧ |ctx| ≤ 2 ∧ shown[c : c+len] = bad.value ∧ '
-                            'every token t of that line sits at shown[t.index - shift ..]'))
+    chk.samples.append(dict(theorem='C19_partial T hv nT : C19_full_caret ∧ C19_parser_bad_token T ∧ C19_parser_suggestion T nT'))
+    chk.samples.append(dict(theorem='C19_full_caret (first conjunct): ∀ src toks b, SrcChain src 0 toks → b ∈ toks → ∃ ctx shown shift c n, '
+                            'errorLocationV true toks (some b) = hdrUnknown :: (ctx ++ [">" ++ shown, "-"*(c+1) ++ "^"*n]) ∧ |ctx| ≤ 2 ∧ '
+                            'n = |first line of b.value| ∧ c + shift = b.index ∧ shown[c : c+n] = src[b.index : b.index+n] ∧ '
+                            'every token t starting on that line is shown at t.index - shift with its source text'))
+    chk.samples.append(dict(theorem='C19_parser_bad_token T: parse (pre ++ rest) = none_ ⟨some k, s⟩ log ∧ k < |pre| → ErrAt T (pre ++ rest) ⟨some k, s⟩ ∧ '
+                            '(parse (pre ++ rest\') fuel\' = none_ ⟨some k, s⟩ log ∨ = fuel)'))
     return chk.finish(assumptions=ASSUME)
 
 
